@@ -58,7 +58,8 @@ PAIR_NAMES = [('uuid', 'uuid2'), ('uuid', 'uuid_in_list'), ('uuid_in_dict', 'mpr
               ('fits_exactly', 'tiny3'), ('reentrant', 'reentrant'), ('oldstyle', 'uuid'), ('h_re_sub', 'h_re'),
               ('comment_wrapping', 'commented'), ('commented', 'many_comments'), ('comment_wrapping', 'many_comments'),
               ('uuid', 'h_pred_lazy'), ('h_pred_lazy', 'h_sub_b'), ('h_pred_lazy', 'h_pred_lazy'),
-              ('many_floats', 'containers'), ('boxed_pretty_repr', 'boxed_pretty_repr'), ('boxed_pretty_repr', 'boxed_pretty_repr2'), ('dataclass', 'dataclass'), ('dataclass', 'dataclass2'), ('attrs', 'attrs'),
+              ('many_floats', 'containers'), ('reentrant_long', 'reentrant_long'), ('reentrant_long', 'tiny3'), ('containers', 'deep150'),
+              ('deep150', 'deep150'), ('tiny', 'deep150'), ('boxed_pretty_repr', 'boxed_pretty_repr'), ('boxed_pretty_repr', 'boxed_pretty_repr2'), ('dataclass', 'dataclass'), ('dataclass', 'dataclass2'), ('attrs', 'attrs'),
               ('ipython_protocol', 'ipython_protocol'), ('h_bad', 'h_bad'), ('h_bad', 'h_unreg'),
               ('containers', 'deep_indent'), ('deep_indent', 'long_str_nested'), ('tiny3', 'deep_indent'), ('h_pred_c', 'h_pred_b'), ('h_pred_b', 'h_pred_c'), ('h_pred_c', 'h_pred'),
               ('h_pred_mixed', 'h_pred_c'), ('h_pred_c', 'h_pred_c'), ('h_memo', 'h_memo'), ('uuid', 'enum'),
@@ -391,6 +392,12 @@ def setup():
     add(('tiny3', 'layout', [1, 2, 3], {}))
     add(('fits_exactly', 'layout', {'k': list(range(20))}, {'width': 79}))
     add(('reentrant', 'layout', [Reentrant([1, 2, 3]), {'k': Reentrant({'b': 1, 'a': [u]})}], {}))
+    add(('reentrant_long', 'layout', ['first element', Reentrant([1, 2, 3]), 'x' * 40, 'y' * 40], {'width': 79}))
+    deep = [1]
+    for _ in range(150):
+        deep = [deep]
+    # optional: kept only if the tree under check can print it serially at all
+    add(('deep150', 'optional', deep, {}))
     add(('oldstyle', 'plain', {'old': OldStyle([1, 2, {'z': 1, 'a': u}])}, {}))
     add(('h_re_sub', 'hlazy', HReSub(1), {}))
     add(('h_re', 'hlazy', [HRe(2), HReSub()], {}))
@@ -523,15 +530,20 @@ def _measure_serial_steps():
                     cand.append(c)
         SWEEP[i] = cand
     byname = {it[0]: i for i, it in enumerate(ITEMS)}
-    PAIRS[:] = [(byname[a], byname[b]) for a, b in PAIR_NAMES if a in byname and b in byname]
-    bad = [ITEMS[i][0] for i, r in enumerate(res) if r[1] is not True]
+    dropped = [i for i, r in enumerate(res) if r[1] is not True and ITEMS[i][1] == 'optional']
+    for i in dropped:
+        # stays in the list (indices are part of replay files) but is never drawn
+        ITEMS[i] = (ITEMS[i][0], 'dropped', None, {})
+    bad = [ITEMS[i][0] for i, r in enumerate(res) if r[1] is not True and i not in dropped]
+    PAIRS[:] = [(byname[a], byname[b]) for a, b in PAIR_NAMES if a in byname and b in byname and
+                'dropped' not in (ITEMS[byname[a]][1], ITEMS[byname[b]][1])]
     if bad:
         # a corpus item that raises when printed alone cannot serve in a "none raises" oracle
         raise core.HarnessError('corpus items raise serially: %s' % bad)
 
 
 # ------------------------------------------------------------------ generation
-GROUP_W = [('lazy', 5), ('hlazy', 4), ('plain', 2), ('cache', 2), ('layout', 2), ('shared', 1), ('extras', 2)]
+GROUP_W = [('optional', 1), ('lazy', 5), ('hlazy', 4), ('plain', 2), ('cache', 2), ('layout', 2), ('shared', 1), ('extras', 2)]
 
 
 def _pick_item(rng):
@@ -541,7 +553,7 @@ def _pick_item(rng):
         if x < w:
             break
         x -= w
-    cands = [i for i, it in enumerate(ITEMS) if it[1] == g]
+    cands = [i for i, it in enumerate(ITEMS) if it[1] == g] or [i for i, it in enumerate(ITEMS) if it[1] == 'lazy']
     return cands[rng.randrange(len(cands))]
 
 
